@@ -91,7 +91,9 @@ def run(tier, seed, workers=None):
         nontrivial_stat='c19_open_children',
         rule='BFS over histories of PR events, child-PR events and commit '
              'events on every source / integration / queue tip in every '
-             'order and multiplicity, pushes, decline, merge; monitor after '
+             'order and multiplicity, pushes, decline, merge, integration '
+             'pull requests declined by hand, forward-port conflicts resolved '
+             'by hand; monitor after '
              'every transition (<=1 open integration PR per (branch, '
              'target), naming, branches only for targets, exact cleanup on '
              'decline and merge) + redirect differential; '
